@@ -117,6 +117,11 @@ func parseActs(tok string) (acts []dact, ph bool, ok bool) {
 			d.a = hexArg(1)
 		case "aw": // c.AbortWithStatus(code)
 			d.n = intArg(1)
+		case "jp": // c.JSONP(200, "cb", v): v encodes fine (0) or its MarshalJSON panics (1)
+			d.n = intArg(1)
+			if d.n != 0 && d.n != 1 {
+				bad = true
+			}
 		case "am": // c.AbortWithStatus(code, msg)
 			d.n, d.a = intArg(1), hexArg(2)
 		default:
@@ -558,6 +563,17 @@ func (cs *dcase) runActs(c *rux.Context, acts []dact, pos string) {
 			c.Resp.WriteHeader(a.n)
 		case "aw":
 			c.AbortWithStatus(a.n)
+		case "jp":
+			if a.n == 0 {
+				c.JSONP(200, "cb", struct {
+					N int `json:"n"`
+				}{1})
+			} else {
+				c.JSONP(200, "cb", dispPanicJSON{func() {
+					cs.tr("P" + pos + ".s." + hx("mj"))
+					panic("mj")
+				}})
+			}
 		case "am":
 			c.AbortWithStatus(a.n, a.a)
 		case "rr":
@@ -587,6 +603,63 @@ func (cs *dcase) runActs(c *rux.Context, acts []dact, pos string) {
 }
 
 type dctxKey struct{}
+
+// a value whose MarshalJSON panics (a handler that dies while a response helper is encoding)
+type dispPanicJSON struct{ f func() }
+
+func (d dispPanicJSON) MarshalJSON() ([]byte, error) { d.f(); return []byte("0"), nil }
+
+// dxJSONPStream (drawn after everything else of the case; one case in six): handlers answer through c.JSONP, and
+// half of the planted panics happen INSIDE the helper (the value's MarshalJSON panics after the helper has written
+// `cb(`). For the model `jp:0` = SetStatus(200) + the three writes of the JSONP renderer, `jp:1` = SetStatus(200) +
+// the first write + the panic. Only `use` / `route` / `notfound` / `notallowed` lines in front of the first request.
+func dxJSONPStream(r *Rand, ops []string) ([]string, bool) {
+	if !r.Chance(1, 6) {
+		return ops, false
+	}
+	out := append([]string{}, ops...)
+	for i, op := range out {
+		if strings.HasPrefix(op, "serve") {
+			break
+		}
+		f := strings.Fields(op)
+		first := 0
+		switch f[0] {
+		case "use", "notfound", "notallowed":
+			first = 1
+		case "route":
+			first = 4
+		default:
+			continue
+		}
+		for j := first; j < len(f); j++ {
+			if f[j] == "PH" {
+				continue
+			}
+			toks := []string{}
+			if f[j] != "-" {
+				toks = strings.Split(f[j], ",")
+			}
+			skip := false
+			for k, t := range toks {
+				if t == "hj" || strings.HasPrefix(t, "sh:") || strings.HasPrefix(t, "nr:") {
+					skip = true
+				}
+				if strings.HasPrefix(t, "pn:") && r.Bool() {
+					toks[k] = "jp:1"
+				}
+			}
+			if !skip && r.Chance(1, 3) {
+				toks = insertAt(toks, r.Intn(len(toks)+1), "jp:0")
+			}
+			if len(toks) > 0 {
+				f[j] = strings.Join(toks, ",")
+			}
+		}
+		out[i] = strings.Join(f, " ")
+	}
+	return out, true
+}
 
 // chain handler at (dynamic) chain position idx()
 func (cs *dcase) chainHandler(acts []dact, idx func() int) rux.HandlerFunc {
@@ -1458,6 +1531,9 @@ func (panicEngine) Gen(r *Rand, tier string) Case {
 		tag += "+aborthook"
 	}
 	ops, tag = dnPanicStream(g, c, ops, tag)
+	if o2, ok := dxJSONPStream(r, ops); ok {
+		ops, tag = o2, tag+"+jsonp"
+	}
 	return Case{Ops: ops, Tag: "hook=" + tag}
 }
 
